@@ -196,10 +196,54 @@ func unwrapLoadAlloc1(v ssa.Value) ssa.Value {
 			n++
 		}
 	}
-	if n == 1 && !captured && st.Parent() == u.Parent() && st.Block().Dominates(u.Block()) && st.Block() != u.Block() {
+	if n == 1 && (!captured || !reassignedInClosures(al)) && st.Parent() == u.Parent() && st.Block().Dominates(u.Block()) && st.Block() != u.Block() {
 		return st.Val
 	}
 	return v
+}
+
+// reassignedInClosures: some closure that captures the local stores to it.
+func reassignedInClosures(al *ssa.Alloc) bool {
+	var fvStored func(fv *ssa.FreeVar, d int) bool
+	fvStored = func(fv *ssa.FreeVar, d int) bool {
+		if d > 4 {
+			return true
+		}
+		for _, r := range *fv.Referrers() {
+			switch r := r.(type) {
+			case *ssa.Store:
+				if r.Addr == ssa.Value(fv) {
+					return true
+				}
+			case *ssa.MakeClosure:
+				fn := r.Fn.(*ssa.Function)
+				for i, b := range r.Bindings {
+					if b == ssa.Value(fv) && i < len(fn.FreeVars) && fvStored(fn.FreeVars[i], d+1) {
+						return true
+					}
+				}
+			case *ssa.UnOp, *ssa.DebugRef:
+			default:
+				return true
+			}
+		}
+		return false
+	}
+	for _, r := range *al.Referrers() {
+		switch r := r.(type) {
+		case *ssa.MakeClosure:
+			fn := r.Fn.(*ssa.Function)
+			for i, b := range r.Bindings {
+				if b == ssa.Value(al) && i < len(fn.FreeVars) && fvStored(fn.FreeVars[i], 0) {
+					return true
+				}
+			}
+		case *ssa.Store, *ssa.UnOp, *ssa.DebugRef:
+		default:
+			return true
+		}
+	}
+	return false
 }
 
 // localStores returns the values stored to a local variable.
